@@ -16,8 +16,8 @@ H == <<1, 0, 2, 7, 8, 0, 0>>                   \* heartbeat, 2 payload + 2 paddi
 Frags(p, cuts) == {SubSeq(p, 1, c) : c \in cuts} \cup {SubSeq(p, c + 1, Len(p)) : c \in cuts}
                   \cup {SubSeq(p, c + 1, d) : c \in cuts, d \in cuts}
 
-HsData == Frags(A, IF Big THEN {1, 3, 4, 5} ELSE {3, 4}) \cup Frags(B, IF Big THEN {2, 4, 6} ELSE {4})
-          \cup {A, B, <<>>, <<99, 0, 0, 0>>} \cup (IF Big THEN {A \o B, <<20, 0, 0>>} ELSE {})
+HsData == Frags(A, IF Big THEN {3, 4, 5} ELSE {3, 4}) \cup Frags(B, IF Big THEN {2, 4} ELSE {4})
+          \cup {A, B, <<>>, <<99, 0, 0, 0>>} \cup (IF Big THEN {} ELSE {})
 HbData == Frags(H, IF Big THEN {2, 4} ELSE {2}) \cup {H, <<>>}
 
 Records ==
@@ -109,7 +109,12 @@ RefinesDefragLen ==
 
 (* one transition test per (state, operation): emitted once per distinct state *)
 OpJson(op) == [op |-> op.op, ct |-> op.ct, ver |-> op.ver, data |-> <<Lit(op.data)>>]
+(* in the thorough universe (~600 k states) every state is model-checked but only a deterministic 1-in-SampleMod sample of *)
+(* them (by a checksum of the buffer), plus every idle state and every state with a short buffer, is turned into tests      *)
+SampleMod == IF Big THEN 131 ELSE 1
+Checksum == FoldLeft(LAMBDA a, x : (a * 31 + x + 7) % 1000003, Len(buf) + cur + 2, buf)
 EmitTransitions ==
+  (cur = -1 \/ Len(buf) <= 5 \/ Checksum % SampleMod = 0) =>
   EmitLine([id |-> ToString(path), prefix |-> [h \in 1..Len(path) |-> OpJson(OpSeq[path[h]])], seq |-> FALSE,
             tests |-> [j \in 1..NOps |-> OpJson(OpSeq[j])],
             expect |-> [j \in 1..NOps |->
